@@ -473,7 +473,7 @@ func c09RacePost(pp *runner.ParentPhase) {
 	reports, blocks := runner.ParseRaceLogs(pp.OutDir)
 	pp.Agg.Counters["race_report_blocks"] += int64(blocks)
 	pp.Agg.Counters["race_reports_distinct"] += int64(len(reports))
-	keep := filepath.Join(runner.VerifDir, "evidence", "replay")
+	keep := filepath.Join(runner.EvidenceDir(), "replay")
 	for i, rep := range reports {
 		if rep.Ice {
 			os.MkdirAll(keep, 0o755)
